@@ -116,11 +116,37 @@ def interval_mutant(rng, text):
     return text[:m.start()] + "[" + b + sep + e + "]" + text[m.end():], "interval:" + kind
 
 
+NUM_RE = re.compile(r"(?<![\w.])(\d+)\.0(?![\w.])")
+
+
+def literal_variant(rng, text):
+    """Respell one numeric literal of the text in another notation of the lexer grammar (IntegerLiteral: decimal / 0x / 0X /
+    0b / 0B with '_' separators; RealLiteral: digits '.' digits? exponent?, '.' digits, digits exponent), value preserved -
+    plus a few malformed spellings."""
+    ms = list(NUM_RE.finditer(text))
+    if not ms:
+        return None
+    m = rng.choice(ms)
+    k = int(m.group(1))
+    good = ["%d" % k, "0x%x" % k, "0X%X" % k, "0x%X" % k, "0b%s" % bin(k)[2:], "0B%s" % bin(k)[2:], "%d." % k, "%d.0e0" % k, "%d.0E+0" % k,
+            "%de0" % k, "%dE-0" % k, "%d.00" % k, "0x0_%x" % k, "0B0_%s" % bin(k)[2:]]
+    if k >= 10:
+        good += ["%d_%d" % (k // 10, k % 10)]
+    if k == 0:
+        good += [".0", ".0e1", "0e5"]
+    bad = ["0x", "0b", "0b2", "0xg", "%d_" % k, "%de" % k, "%d.e" % k, "0x_1", "1__", "%d..0" % k, "0B", "%dE+" % k]
+    sp = rng.choice(good) if rng.random() < 0.8 else rng.choice(bad)
+    return text[:m.start()] + sp + text[m.end():], "literal:" + ("good" if sp in good else "bad")
+
+
 def explore(ctx, rng, count):
     items = []
     for _ in range(count):
         text, consts = gen_valid(rng)
         items.append((text, consts, "valid"))
+        lv = literal_variant(rng, text)
+        if lv is not None:
+            items.append((lv[0], consts, "mutant:" + lv[1]))
         im = interval_mutant(rng, text)
         if im is not None:
             items.append((im[0], consts, "mutant:" + im[1]))
@@ -129,6 +155,10 @@ def explore(ctx, rng, count):
             items.append((mt, consts, "mutant:" + kind))
         if rng.random() < 0.5:
             items.append((FR.soup(rng), [], "soup"))
+        if rng.random() < 0.15:
+            # declared constants with non-decimal values, used in expressions and as bounds
+            v = rng.choice(["0X1F", "0B11", "0x3", "3", "1_0", "2.5", "1E1", "0x1f", "0b1"])   # valid literals only: the value comes through the API
+            items.append((rng.choice(["out = a >= K9", "out = once[0,K9](a >= 1)", "out = always[K9,K9] (a > K9)"]), [("K9", v)], "const-value"))
     ms = []
     # model calls grouped by constants
     for text, consts, _ in items:
